@@ -151,8 +151,35 @@ def _wrap_contents_class(cls):
                             yield x
                         state['exhausted'] = True
 
+                    handed_out = gen()
+                    if iter(it) is not it:
+                        # not a one-pass iterator (a list, e.g.): the consumer must get an object that behaves the
+                        # same way (every `for` starts again at the first line), or the monitor would hide the fact
+                        COUNT['as_lines_not_an_iterator'] = COUNT.get('as_lines_not_an_iterator', 0) + 1
+                        _viol('M4: as_lines of %s hands out a %s, not a one-pass iterator: a consumer that reads the '
+                              'lines in several consecutive loops (strip, several line ranges) meets the first lines '
+                              'again, i.e. another text than the one as_str gives' % (type(self).__name__,
+                                                                                     type(it).__name__),
+                              mechanism='not-an-iterator', cls=type(self).__name__)
+
+                        class _Again:
+                            def __iter__(self_):
+                                if not consumed and not state['exhausted']:
+                                    return gen()
+                                return iter(it)
+
+                            def __getattr__(self_, name):
+                                return getattr(it, name)
+
+                            def __len__(self_):
+                                return len(it)
+
+                            def __getitem__(self_, k):
+                                return it[k]
+
+                        handed_out = _Again()
                     try:
-                        yield gen()
+                        yield handed_out
                     finally:
                         if state['exhausted']:
                             COUNT['as_lines_complete'] += 1
